@@ -35,8 +35,10 @@ OpsOf(s) ==
 
 Init == st = InitSt /\ hist = <<>>
 
-NextMC == \E op \in OpsOf(st) : st' = Apply(st, op) /\ hist' = hist
+\* in SpecMC hist holds just the operation taken last (cfg: VIEW MCView, so states are registries)
+NextMC == \E op \in OpsOf(st) : st' = Apply(st, op) /\ hist' = <<op>>
 SpecMC == Init /\ [][NextMC]_vars
+MCView == st
 
 NextGen == /\ Len(hist) < Depth
            /\ \E op \in OpsOf(st) : st' = Apply(st, op) /\ hist' = Append(hist, op)
@@ -60,9 +62,12 @@ Consults(reg, q, s) ==
   \/ q = s \/ s \in ChainSet(reg, q)
   \/ (q \in DOMAIN reg /\ reg[Chain(reg, q)[Len(Chain(reg, q))]].b = s)
 Act_Frame ==
-  [][\A op \in OpsOf(st) :
-        (st' = Apply(st, op) /\ op.op \in {"AddStyle", "RemoveStyle", "Create"}) =>
+  [][LET op == hist'[1] IN
+        op.op \in {"AddStyle", "RemoveStyle", "Create"} =>
            \A q \in Qs : ~Consults(st.reg, q, op.s) => Resolve(st'.reg, q) = Resolve(st.reg, q)]_vars
+\* resolving, describing and cloning are not transitions of the registry
+Act_ReadOnly ==
+  [][hist'[1].op \in Readers \cup CloneOps => st' = st]_vars
 \* a style's own setting always wins, whatever is done to other styles
 Act_OwnWins ==
   [][\A q \in Ids : q \in DOMAIN st'.reg =>
